@@ -8,7 +8,7 @@ static const char *gn[] = { "none", "eventual", "suspend", "mutex", "cond" };
 
 typedef struct unit6 {
     int id, home_es, pool, gate, yields_before, yields_after, migrate_to; /* migrate_to: pool index or -1 */
-    int is_task;
+    int is_task, yield_to_child;
     volatile int started, at_gate, released, done;
     ABT_thread self; /* valid while the unit is alive */
     ABT_eventual_memory evm;
@@ -33,6 +33,11 @@ static struct {
     long released_after_join;
 } S;
 
+static void child_fn(void *arg)
+{
+    (void)arg;
+}
+
 static void unit_fn(void *arg)
 {
     unit6 *u = (unit6 *)arg;
@@ -45,9 +50,19 @@ static void unit_fn(void *arg)
             sim_yield();
         else
             ABT_OK(ABT_thread_yield());
+    ABT_thread child = ABT_THREAD_NULL;
+    if (u->yield_to_child) {
+        /* a sibling in my own pool, which only the stream I am running on serves: it cannot
+         * be popped before I hand control to it */
+        ABT_OK(ABT_thread_create(S.rt.pools[u->pool], child_fn, NULL, ABT_THREAD_ATTR_NULL, &child));
+    }
     if (u->migrate_to >= 0) {
         /* the request is handled at the next scheduling point, possibly the blocking one */
         ABT_OK(ABT_thread_migrate_to_pool(u->self, S.rt.pools[u->migrate_to]));
+    }
+    if (u->yield_to_child) {
+        ABT_OK(ABT_thread_yield_to(child));
+        ABT_OK(ABT_thread_free(&child));
     }
     switch (u->gate) {
         case G_EVENTUAL:
@@ -230,6 +245,7 @@ static void run_c06(void)
                 if (rt->pool_es[p] == 0 && p != u->pool)
                     u->migrate_to = p;
         }
+        u->yield_to_child = !u->is_task && u->yields_before == 0 && plan_n(3) == 0;
         if (u->gate == G_EVENTUAL) {
             ABT_eventual_memory ei = ABT_EVENTUAL_INITIALIZER;
             u->evm = ei;
@@ -244,7 +260,7 @@ static void run_c06(void)
             else
                 S.nmutex_units++;
         }
-        sim_note("%s%d@es%d:%s%s ", u->is_task ? "T" : "U", i, u->home_es, gn[u->gate], u->migrate_to >= 0 ? "+mig" : "");
+        sim_note("%s%d@es%d:%s%s%s ", u->is_task ? "T" : "U", i, u->home_es, gn[u->gate], u->migrate_to >= 0 ? "+mig" : "", u->yield_to_child ? "+yield_to" : "");
     }
     int rel = sim_thread_create(S.nmutex_units ? releaser_boot : releaser, NULL);
     if (S.nmutex_units)
